@@ -39,10 +39,12 @@ Proof.
   - now apply N.eqb_eq.
   - now apply out_is_eq.
   - intros a. rewrite forallb_forall in Hw, Hv.
-    destruct (in_dec N.eq_dec a wl) as [I|NI]; [exact (Hw a I)|].
-    destruct (in_dec N.eq_dec a (1 :: vars_words (b_vars b))) as [J|NJ]; [exact (Hv a J)|].
+    destruct (in_dec N.eq_dec a (0 :: 1 :: vars_words (b_vars b))) as [J|NJ]; [exact (Hv a J)|].
+    assert (NJ' : ~ In a (1 :: vars_words (b_vars b))) by (intros X; apply NJ; right; exact X).
+    destruct (in_dec N.eq_dec a wl) as [I|NI].
+    { specialize (Hw a I). destruct a; [exfalso; apply NJ; left; reflexivity|exact Hw]. }
     unfold mget0. rewrite (F a NI). cbn [m init].
-    rewrite (start_mem_frame ww img b vs vs' a NJ). apply eq_mod_refl.
+    rewrite (start_mem_frame ww img b vs vs' a NJ'). apply eq_mod_refl.
   - now apply ptr_consistent_b_sound.
 Qed.
 
@@ -117,6 +119,12 @@ Proof.
     + intros t Ht. apply A. constructor; assumption.
     + intros t Ht. apply B. constructor; assumption.
 Qed.
+
+(* the value list of one operand replaced by an equal list (the concatenation of its shards; the equality is a
+   separate vm_compute lemma, so no large list is ever compared by the unifier) *)
+Lemma ldom_recut pre (P : list N -> Prop) l l' rs :
+  l = l' -> (forall vs, in_ldom (pre ++ l' :: rs) vs -> P vs) -> forall vs, in_ldom (pre ++ l :: rs) vs -> P vs.
+Proof. intros E H. subst. exact H. Qed.
 
 (* a union is proved product by product *)
 Lemma udom_nil (P : list N -> Prop) : forall vs, in_udom [] vs -> P vs.
